@@ -26,6 +26,9 @@ CmdInfo(c) ==
   CASE c = "A" -> [api |-> "Cmd", cmd |-> "GetDeviceID", netfn |-> 6, num |-> 1, body |-> <<>>]
     [] c = "B" -> [api |-> "Cmd", cmd |-> "GetSystemGUID", netfn |-> 6, num |-> 55, body |-> <<>>]
     [] c = "R" -> [api |-> "Raw", cmd |-> "Raw", netfn |-> 10, num |-> 16, body |-> <<7>>]
+    \* C: Chassis Control (Chassis 00h/02h, power down): the response has no body, so nothing but the message header
+    \* (network function, command) and the completion code ties a reply to the request
+    [] c = "C" -> [api |-> "Cmd", cmd |-> "ChassisControl", netfn |-> 0, num |-> 2, body |-> <<0>>]
     \* G, H: two Group Extension (2Ch) commands with the DCMI body code DCh (02h Get Power Reading, 07h Get DCMI Sensor Info numbers)
     [] c = "G" -> [api |-> "Raw", cmd |-> "Raw", netfn |-> 44, num |-> 2, body |-> <<1, 0, 0>>, group |-> 220]
     [] c = "H" -> [api |-> "Raw", cmd |-> "Raw", netfn |-> 44, num |-> 7, body |-> <<1, 64, 0, 1>>, group |-> 220]
@@ -34,6 +37,7 @@ MsgFor(c, ccb, body) == B(MsgRspBytes(129, CmdInfo(c).netfn + 1, 0, 1, 0, CmdInf
 BodyBytes(c, mk)  == CASE c = "A" -> <<mk, 129, 2, 21, 2, 191, 162, 2, 0, 52, 18>>
                        [] c = "B" -> <<mk>> \o [i \in 1..15 |-> 200 + i]
                        [] c = "R" -> <<mk, 1, 2, 3>>
+                       [] c = "C" -> <<>>
                        [] c = "G" -> <<220, mk, 9, 9>>
                        [] c = "H" -> <<220, mk, 0>>
 Marker(call, n) == call * 16 + n
@@ -116,7 +120,8 @@ Header == [header |-> TRUE, family |-> "console",
            prefixes |-> [hs |-> HandshakeSteps(S)],
            suite |-> [authNum |-> AuthNum, integNum |-> IntegNum, integLen |-> S.integLen, bmcSid |-> S.bmcSid],
            cmds |-> [c \in Cmds |-> [netfn |-> CmdInfo(c).netfn, num |-> CmdInfo(c).num, body |-> CmdInfo(c).body,
-                                      name |-> (CASE c = "A" -> "Get Device ID" [] c = "B" -> "Get System GUID" [] OTHER -> "Raw"),
+                                      name |-> (CASE c = "A" -> "Get Device ID" [] c = "B" -> "Get System GUID" [] c = "C" -> "Chassis Control" [] OTHER -> "Raw"),
+                                      nobody |-> (c = "C"),
                                       wire |-> (IF "group" \in DOMAIN CmdInfo(c) THEN <<CmdInfo(c).group>> ELSE <<>>) \o CmdInfo(c).body]]]
 ASSUME PrintT(<<"HEADER", ToJson(Header)>>)
 
